@@ -45,6 +45,23 @@ def pairwiseDistinct (l : List (List Int)) : Bool :=
 
 def jChars (l : List Char) : Json := jStr (String.ofList l)
 
+/-- one call of a history (`PewModel.CsvDir.Call`) -/
+def parseCall (j : Json) : R (Call V) := do
+  let c ← getStr j "c"
+  match c with
+  | "write" => pure (.write (← getNat j "p") (← getList parseEntry j "entries"))
+  | "new" => pure (.newOpt (← parseVendor (← getStr j "vendor")))
+  | "detect" => pure (.detect (← getNat j "p"))
+  | "edit" =>
+    -- what the harness does to an option object it holds: names appended to `drop_names`, the two NaN flags flipped
+    let extra ← getList asStr j "drop"
+    let i ← getNat j "i"
+    pure (.editOpt i (fun o =>
+      { cls := o.cls, dropNames := o.dropNames ++ extra, dropNanRows := !o.dropNanRows, dropNanCols := !o.dropNanCols }))
+  | "auto" => pure (.importAuto (← getNat j "p") (← getList asNat j "pi"))
+  | "with" => pure (.importWith (← getNat j "i") (← getNat j "p") (← getList asNat j "pi"))
+  | _ => throw s!"bad call {c}"
+
 def handle (op : String) (req : Json) : R Json := do
   match op with
   | "c04.load" =>
@@ -76,6 +93,25 @@ def handle (op : String) (req : Json) : R Json := do
                 ("strict_stamps", jBool (v != .tofwerk || acc.all (fun e => stampStrict e.name.toList))),
                 ("hkey", jBool hkey),
                 ("hyp", jBool (injective && covers && stamps && nameform && header && rect && hkey))])
+  | "c04.history" =>
+    -- the mechanism with its world (directories by path, option objects the caller holds): what every call returns
+    let calls ← getList parseCall req "calls"
+    let w : World V := { fs := fun _ => [], opts := [] }
+    let tr := trace isNanV readParams timegm w calls
+    pure (jObj [("results", jList (jOpt jResult) tr),
+                ("options", jNat (exec isNanV readParams timegm w calls).opts.length)])
+  | "c04.cells" =>
+    -- the specification and the mechanism on CELL IDENTITIES (every written non-NaN cell carries its own number, NaN
+    -- cells are null): which written cell stands at each position of the result
+    let vs ← getStr req "vendor"
+    let entries ← getList parseEntry req "entries"
+    let pi ← getList asNat req "pi"
+    let v ← parseVendor vs
+    let img := fun (r : Option (Image V × Unit)) => match r with
+      | none => jObj [("raises", jStr "ValueError")]
+      | some (im, _) => jObj [("image", jImage im)]
+    pure (jObj [("model", img (load isNanV (fun _ _ => ()) v timegm entries pi)),
+                ("spec", img (specLoad isNanV (fun _ _ => ()) v entries))])
   | "c04.sort" =>
     -- `option.sort(option.filter(paths))` of the four options on a list of names
     let names ← getList asStr req "names"
